@@ -13,7 +13,7 @@ open H2V.Lemmas.ConnCtlP (GoAwayInv Keep15 Step15 GaLe gaLast view)
 
 /-- `Conn.panic m` as a step -/
 theorem panic_cs {X : String → Prop} {c : Conn} (hi : GoAwayInv c) (m : String) (hm : X m) : CS X c (c.panic m) :=
-  ⟨.of_step15 ((Keep15.of_view (c := c) (c' := c.panic m) rfl (by simp [Conn.panic])).step hi) rfl rfl (.of_eq rfl),
+  ⟨.of_step15 ((Keep15.of_view (c := c) (c' := c.panic m) rfl (by simp [Conn.panic])).step hi) rfl rfl (.of_eq rfl rfl),
     .op (.panic m) .refl hm rfl⟩
 
 /-- a step that keeps `goAway` and the view of the streams -/
@@ -49,6 +49,7 @@ theorem poll2Dispatch_cs {X : String → Prop} (k : Conn → Conn × PollRes) (h
     | settings a v =>
       dsimp only
       have s2 := recvSettings_cs (X := X) s1.ga a v (fun _ => by rw [hset]; exact h.rem)
+        (fun _ => hf _ (recvFrame_settings_inv hF))
       rcases hS : c1.recvSettings a v with ⟨c2, r2⟩
       rw [hS] at s2
       dsimp only at s2
@@ -66,7 +67,7 @@ theorem poll2Read_cs {X : String → Prop} (k : Conn → Conn × PollRes) (hk : 
   dsimp only at w1 w2 w3 ⊢
   have k0 := (Keep15.of_view (c := c) (c' := { c with codec := codec }) rfl rfl).step h.ok.ga
   have s0 : CS X c { c with codec := codec } :=
-    ⟨⟨k0.1, k0.2, fun p hp => ⟨p, hp, rfl⟩, fun hn => ⟨w1.max, w1.need, hn.loc⟩⟩, .same rfl w2⟩
+    ⟨⟨k0.1, k0.2, fun p hp => ⟨p, hp, rfl⟩, fun hn => ⟨w1.max, w1.need, hn.loc, hn.rem⟩⟩, .same rfl w2⟩
   have h0 : ReadOK { c with codec := codec } := ⟨s0.ok h.ok, h.cn, h.ref, h.rem, h.pong⟩
   split
   · exact s0
@@ -83,7 +84,7 @@ theorem poll2Read_cs {X : String → Prop} (k : Conn → Conn × PollRes) (hk : 
 theorem poll2GoOn_cs {X : String → Prop} (k : Conn → Conn × PollRes) (hk : ∀ c, ConnOK c → CS X c (k c).1) {c : Conn}
     (hc : ConnOK c) (hcn : c.goAway.closeNow = false) : CS X c (ConnCtlP.poll2GoOn k c).1 := by
   unfold ConnCtlP.poll2GoOn
-  obtain ⟨s1, g1, hok⟩ := pollReady_cs (X := X) hc.ga
+  obtain ⟨s1, g1, hok⟩ := pollReady_cs (X := X) hc.ga hc.rd.rem
   rcases hP : c.pollReady with ⟨c1, st⟩
   rw [hP] at s1 g1 hok
   dsimp only at s1 g1 hok
